@@ -205,7 +205,9 @@ def run_tlc(
     spec_dir = Path(spec_dir)
     tmp = tempfile.mkdtemp(prefix="vtlc_")
     try:
-        cmd = ["java", "-XX:+UseParallelGC", "-Xmx" + os.environ.get("VERIF_TLC_XMX", "5g")]
+        # -Xss: trace specs fold recursive operators over traces of 10^4 events (hours of virtual air time)
+        cmd = ["java", "-XX:+UseParallelGC", "-Xmx" + os.environ.get("VERIF_TLC_XMX", "5g"),
+               "-Xss" + os.environ.get("VERIF_TLC_XSS", "256m")]
         if dfs_queue:
             cmd.append("-Dtlc2.tool.queue.IStateQueue=StateDeque")
         cmd += java_opts or []
